@@ -325,3 +325,7 @@ def check(run):
     ob_inputs(run, "O3.4")
     ob_try_new(run, "O3.5")
     ob_announce(run, "O3.6")
+    # "signers are exactly validators whose matching votes the node accepted (each counted once)": what is counted is decided by
+    # the admission filters - their order in Pool::add_vote, the decision tables and the recording of every admitted vote
+    from . import C04
+    C04.check(run, prefix="O3.8")
